@@ -612,7 +612,7 @@ fc_statements = [
         ],
         f_module=dict(iso_c_binding=["c_f_pointer"]),
         post_call=[
-            "call c_f_pointer({c_var_context}%base_addr, {f_var}{f_array_shape})",
+            "call c_f_pointer(\t{c_var_context}%base_addr,\t {f_var}{f_array_shape})",
         ],
     ),
     dict(
